@@ -217,3 +217,64 @@ Proof.
   exact (C02_countermodel_proof full_fuel t6 L6 [] pbs6 lft6 rgt6 eq_refl eq_refl t6_accepted
            (proj1 t6_tight) (proj2 t6_tight) t6_left t6_right t6_outputs_occur t6_no_clash FI M6 (t6_refuted FI)).
 Qed.
+
+(* ===== t8: both sides have a private q/0 (the program's is renamed q_p in the problems)
+         specification  q :- in.  out :- q.     program  q :- not in.  out :- q.
+         input: in/0.  output: out/0.   M8 = {in, q, out} (q_p false) refutes the forward problem ===== *)
+From Anthem Require Import Proofs.C02Complete.
+Definition L8 : program := [ r0 "q" [p0 "in"]; r0 "out" [p0 "q"] ].
+Definition R8 : program := [ r0 "q" [n0 "in"]; r0 "out" [p0 "q"] ].
+Definition t8 : ext_task :=
+  mkext (inl L8) R8 [UGInput (mkpred "in" 0); UGOutput (mkpred "out" 0)] [] DIndependent DUniversal ReprTauStar false true false.
+Definition M8 : pint := Mof ["in"; "q"; "out"].
+Definition pbs8 : list problem :=
+  match external_decompose_full full_fuel t8 with XOk _ pbs => pbs | _ => [] end.
+Definition lft8 := match tlf t8 L8 with Some l => l | None => [] end.
+Definition rgt8 := match trf t8 with Some l => l | None => [] end.
+
+Lemma t8_accepted : external_decompose_full full_fuel t8 = XOk [] pbs8 /\ task_mapping t8 = [(mkpred "q" 0, "p")].
+Proof. split; vm_compute; reflexivity. Qed.
+Lemma t8_left : tlf t8 L8 = Some lft8. Proof. vm_compute. reflexivity. Qed.
+Lemma t8_right : trf t8 = Some rgt8. Proof. vm_compute. reflexivity. Qed.
+Lemma t8_tight : is_tight L8 = true /\ is_tight R8 = true. Proof. split; vm_compute; reflexivity. Qed.
+Lemma t8_outputs_occur : outputs_occur t8.
+Proof. apply outputs_occurb_spec. vm_compute. reflexivity. Qed.
+Lemma t8_no_clash :
+  forall vt, task_validated tau_star_total completion (simp_classic_total full_fuel) t8 = Some vt -> validated_no_clash vt.
+Proof. apply task_no_clashb_spec. vm_compute. reflexivity. Qed.
+Lemma t8_rename_faithful : rename_faithful t8 L8.
+Proof. apply rename_faithfulb_ok. vm_compute. reflexivity. Qed.
+Lemma t8_ug_over_inputs : ug_over_inputs t8.
+Proof. apply ug_over_inputsb_ok. vm_compute. reflexivity. Qed.
+Lemma t8_refuted FI : refutes_some FI M8 pbs8.
+Proof.
+  remember pbs8 as l eqn:E. vm_compute in E. subst l. eexists. split; [left; reflexivity|]. split.
+  - intros a Ha. cbn in Ha.
+    repeat (destruct Ha as [<-|Ha]; [intros e; cbn; unfold M8, Mof; cbn; intuition congruence|]). destruct Ha.
+  - eexists. split; [cbn; left; reflexivity|]. intros H. specialize (H (mkenv (fun _ => VInf) (fun _ => 0%Z) (fun _ => ""))).
+    cbn in H. unfold M8, Mof in H. cbn in H. intuition congruence.
+Qed.
+Lemma t8_difference FI : exists T, behavioural_difference t8 L8 FI T.
+Proof.
+  apply (proj1 (external_equivalence_iff full_fuel t8 L8 [] pbs8 lft8 rgt8 eq_refl eq_refl (proj1 t8_accepted)
+                  (proj1 t8_tight) (proj2 t8_tight) t8_left t8_right t8_outputs_occur t8_no_clash
+                  t8_rename_faithful t8_ug_over_inputs FI)).
+  exists M8. exact (t8_refuted FI).
+Qed.
+Lemma t8_complete FI : exists T M, behavioural_difference t8 L8 FI T /\ pub_agree t8 M T /\ refutes_some FI M pbs8.
+Proof.
+  destruct (t8_difference FI) as [T HT]. exists T.
+  destruct (countermodel_complete full_fuel t8 L8 [] pbs8 lft8 rgt8 eq_refl eq_refl (proj1 t8_accepted)
+              (proj1 t8_tight) (proj2 t8_tight) t8_left t8_right t8_outputs_occur t8_no_clash
+              t8_rename_faithful t8_ug_over_inputs FI T HT) as [M HM].
+  exists M. split; [exact HT|exact HM].
+Qed.
+(* F9: the renaming is not faithful when the program also has a predicate q_p *)
+Definition R9 : program := [ r0 "q" [n0 "in"]; r0 "q_p" [p0 "in"]; r0 "out" [p0 "q"; p0 "q_p"] ].
+Definition t9 : ext_task :=
+  mkext (inl L8) R9 [UGInput (mkpred "in" 0); UGOutput (mkpred "out" 0)] [] DIndependent DUniversal ReprTauStar false true false.
+Lemma t9_not_faithful : ~ rename_faithful t9 L8.
+Proof.
+  intros [_ H]. specialize (H "q" "q_p" 0 ltac:(vm_compute; auto) ltac:(vm_compute; auto) ltac:(vm_compute; reflexivity)).
+  discriminate.
+Qed.
